@@ -6,7 +6,7 @@ import ast
 from typing import Any, Dict, List, Set, Tuple
 
 from .. import nondet
-from ..frontend import norm
+from ..frontend import iter_functions, norm
 from ..interp import Config, Interp
 from ..report import Ctx
 from ..values import SBool, SDict, SFunc, SList, SNew, SObj, SOpaque, SStr, Sym, short
@@ -125,6 +125,62 @@ def check(ctx: Ctx) -> None:
                              f"all instances share it, so what one object holds depends on the objects built before it",
                              witness=f"two {ci_.name} objects created one after the other")
     ctx.ok("C18.N7", "no class-level mutable attribute is mutated through instances without being re-created by __init__")
+    # ---- N8: a mutable default argument that is mutated, stored or returned is one object shared by all calls -----------------------------------
+    _MUT = ("append", "extend", "insert", "add", "update", "pop", "remove", "clear", "setdefault", "sort", "reverse", "popitem", "discard", "__iadd__")
+    n8 = 0
+    for m_ in prog.modules.values():
+        if not m_.name.startswith("htmltools"):
+            continue
+        for q_, f_ in iter_functions(m_):
+            a_ = f_.args
+            pos = a_.posonlyargs + a_.args
+            pairs = list(zip(pos[len(pos) - len(a_.defaults):], a_.defaults)) + [(x_, d_) for x_, d_ in zip(a_.kwonlyargs, a_.kw_defaults) if d_ is not None]
+            for arg_, d_ in pairs:
+                mutable = isinstance(d_, (ast.List, ast.Dict, ast.Set, ast.ListComp, ast.DictComp, ast.SetComp)) or \
+                    (isinstance(d_, ast.Call) and isinstance(d_.func, ast.Name) and d_.func.id in ("list", "dict", "set", "TagList", "defaultdict", "OrderedDict"))
+                if not mutable:
+                    continue
+                n8 += 1
+                nm_ = arg_.arg
+                uses_ = []
+                for n_ in ast.walk(f_):
+                    if isinstance(n_, ast.Call) and isinstance(n_.func, ast.Attribute) and n_.func.attr in _MUT and isinstance(n_.func.value, ast.Name) and n_.func.value.id == nm_:
+                        uses_.append(f"mutated by `{norm(n_)[:50]}`")
+                    if isinstance(n_, (ast.Assign, ast.AnnAssign)) and isinstance(getattr(n_, "value", None), ast.Name) and n_.value.id == nm_ \
+                            and any(isinstance(t_, (ast.Attribute, ast.Subscript)) for t_ in (n_.targets if isinstance(n_, ast.Assign) else [n_.target])):
+                        # ... which matters when the place it is stored in is mutated somewhere
+                        tnames = [t_.attr for t_ in (n_.targets if isinstance(n_, ast.Assign) else [n_.target]) if isinstance(t_, ast.Attribute)]
+                        hit_ = None
+                        for m2_ in prog.modules.values():
+                            if not m2_.name.startswith("htmltools") or hit_:
+                                continue
+                            for x_ in ast.walk(m2_.tree):
+                                if isinstance(x_, ast.Call) and isinstance(x_.func, ast.Attribute) and x_.func.attr in _MUT and isinstance(x_.func.value, ast.Attribute) \
+                                        and x_.func.value.attr in tnames:
+                                    hit_ = norm(x_)[:50]
+                                if isinstance(x_, ast.AugAssign) and isinstance(x_.target, ast.Attribute) and x_.target.attr in tnames:
+                                    hit_ = norm(x_)[:50]
+                                if isinstance(x_, (ast.Assign, ast.AugAssign)):
+                                    for t2_ in (x_.targets if isinstance(x_, ast.Assign) else [x_.target]):
+                                        if isinstance(t2_, ast.Subscript) and isinstance(t2_.value, ast.Attribute) and t2_.value.attr in tnames:
+                                            hit_ = norm(x_)[:50]
+                        if hit_ or any(isinstance(t_, ast.Subscript) for t_ in (n_.targets if isinstance(n_, ast.Assign) else [n_.target])):
+                            uses_.append(f"stored by `{norm(n_)[:50]}`" + (f" and that is mutated by `{hit_}`" if hit_ else ""))
+                    if isinstance(n_, ast.AugAssign) and isinstance(n_.target, ast.Name) and n_.target.id == nm_:
+                        uses_.append(f"extended in place by `{norm(n_)[:50]}`")
+                    if isinstance(n_, (ast.Assign, ast.AugAssign, ast.Delete)):
+                        for t_ in (n_.targets if isinstance(n_, (ast.Assign, ast.Delete)) else [n_.target]):
+                            if isinstance(t_, ast.Subscript) and isinstance(t_.value, ast.Name) and t_.value.id == nm_:
+                                uses_.append(f"item written by `{norm(n_)[:50]}`")
+                    if isinstance(n_, ast.Return) and isinstance(n_.value, ast.Name) and n_.value.id == nm_:
+                        uses_.append("returned")
+                if uses_:
+                    ctx.fail("C18.N8", f"{m_.name}:{q_}", f"parameter {nm_} = {norm(d_)[:20]}: {uses_[0]}",
+                             f"`{q_}` has the mutable default `{nm_}={norm(d_)[:20]}` and the parameter is {uses_[0]}: the default object is created once, when the "
+                             f"function is defined, so every call that relies on the default sees what earlier calls left in it",
+                             witness=f"two calls of {q_} without `{nm_}=` in one process", line=getattr(d_, "lineno", None))
+    ctx.count("mutable default arguments examined", n8)
+    ctx.ok("C18.N8", "no mutable default argument is mutated, stored in an object or returned")
     # glob exemption is only valid while copy_to returns nothing
     ct = prog.function(CORE, "HTMLDependency.copy_to")
     rets = [n for n in ast.walk(ct) if isinstance(n, ast.Return) and n.value is not None and not (isinstance(n.value, ast.Constant) and n.value.value is None)]
@@ -195,6 +251,16 @@ def check(ctx: Ctx) -> None:
                    and (e.key.__dict__.get("extcall") or {}).get("q", "").startswith("hashlib.")]
             data = ups[0].value[0] if len(ups) == 1 and ups[0].value else None
         ok = isinstance(data, SStr) and "str.encode" in repr(data) and data.frags[0].b is not None
+        if ok:
+            # the encoding must be one-to-one: a UTF codec, errors left strict (or surrogatepass)
+            ea = [x_ for x_ in data.frags[0].a[1:]] if isinstance(data.frags[0].a, tuple) else []
+            enc = str(ea[0]).lower().replace("_", "-") if ea else "utf-8"
+            err = str(ea[1]).lower() if len(ea) > 1 else "strict"
+            lossless = enc in ("utf-8", "utf8", "utf-16", "utf-32", "utf-16-le", "utf-16-be", "utf-32-le", "utf-32-be", "utf-8-sig") and err in ("strict", "surrogatepass") \
+                and all(isinstance(x_, str) for x_ in ea)
+            ctx.check(lossless, "C18.name", "the digest is taken over a one-to-one encoding of the text", f"{UTIL}:hash_deterministic", f"encode{tuple(ea)}",
+                      f"hash_deterministic digests s.encode{tuple(ea)}: the encoding drops or replaces characters, so different content gets the same name and "
+                      f"one of two head_content payloads is dropped as a duplicate", witness="head_content('<title>é</title>') vs head_content('<title>ü</title>')")
         recv = data.frags[0].b if ok else None
         whole = isinstance(recv, SStr) and len(recv.frags) == 1 and recv.frags[0].kind == "OF" and recv.frags[0].a[0] == s.uid
         ctx.check(bool(ok and whole) and not [e for e in ext if str(e.target) in ("builtins.hash",)], "C18.name", "hash_deterministic is a hashlib digest of the whole encoded string", f"{UTIL}:hash_deterministic",
@@ -203,4 +269,10 @@ def check(ctx: Ctx) -> None:
     from .c08 import purity, return_ownership, tagify_table
     ok = tagify_table(ctx, I)
     O = purity(ctx, ok, rule="C18.pure", report_globals=True)
+    # "equal content is included once per document": the collections rendering works from are the resolved ones
+    from .c10 import dedup_defaults, render_reports_resolved
+    dedup_defaults(ctx, rule="C18.once")
+    render_reports_resolved(ctx, I, rule="C18.once")
+    from .c20 import purity as jsx_purity     # converting a component must not change it either (history independence)
+    jsx_purity(ctx, rule="C18.pure")
     return_ownership(ctx, O, rule="C18.copy")
